@@ -400,4 +400,12 @@ theorem handleClaim_spec (e : Env) {s : State} (hi : Inv s) (m : Msg) (hpgn : m.
       intro x dx hx hdx hnx
       rw [hf]; simp [hx, hf2 x dx hx (hfr x dx hx hdx hnx) hnx]
 
+/-- a claim that repeats what the list shows under that source (non-zero NAME) changes nothing -/
+theorem handleClaim_reclaim (e : Env) {s : State} (hi : Inv s) (m : Msg) (hpgn : m.pgn = pgnClaim)
+    (hsrc : m.source < MaxBusDevices) {d : Device} (hd : devAt s m.source = some d)
+    (hn : d.name = claimName m) (h0 : d.name ≠ 0) : handleClaim e s m = .ok s := by
+  obtain ⟨_, _, _, id, hs, hh⟩ := devAt_src hi.st hd
+  have hnn : ¬ d.name ≠ claimName m := by omega
+  simp [handleClaim, hpgn, claimA, hsrc, hs, State.deref, hh, h0, hnn]
+
 end N2k.DeviceList
